@@ -913,6 +913,8 @@ func TestCheck(t *testing.T) {
 		"(name, name-case, qtype, qclass, DO, EDNS presence, AD, CD, RD; ECS cache also client country, ASN, family, ECS presence/subnet/location/declined) x both orders, history [first, second, first, second]; " +
 		"(history) random walks of 8-15 requests over a base and all its variants; (cacheability) every response class x qtype x config asked three times; " +
 		"(age-sweep) entries with original TTL 1-3 s probed after real sleeps up to TTL+1 s, hundreds of cases sleeping in parallel on one shared instance per config; " +
+		"(wired) histories of 10-17 names asked three times on an instance whose dnsmsg.Cloner is shared with message constructors that build blocked / rewritten answers between the cache accesses and into which every written response is disposed (production wiring); " +
+		"(frontend) the middleware behind the real plain-DNS server with the cloner as Disposer: a UDP query whose answer the server truncates, then the same question over TCP / with a large EDNS size (and TCP, truncated UDP, TCP), compared with a cold server's answer; " +
 		"(concurrent) 16-48 goroutines over a ~100-request alphabet of 1-2 s TTL names on one shared instance per config under the race detector. " +
 		"distinct = (phase, config, response kind, dimension/order | class/qtype | lifetime and 100 ms age bucket | alphabet element); " +
 		"non-trivial = at least one response of the case was served from cache (upstream not called) or a required cache miss between different keys was observed.")
@@ -926,7 +928,7 @@ func TestCheck(t *testing.T) {
 		name string
 		f    func()
 	}{{"info", m.phaseInfo}, {"separation+history", m.phaseSeparation}, {"cacheability", m.phaseCacheability},
-		{"age-sweep", m.phaseAges}, {"concurrent", m.phaseConcurrent}} {
+		{"wired", m.phaseWired}, {"frontend", m.phaseFrontend}, {"age-sweep", m.phaseAges}, {"concurrent", m.phaseConcurrent}} {
 		st := now()
 		ph.f()
 		phaseWall[ph.name] = (now() - st).Seconds()
@@ -953,6 +955,12 @@ func TestCheck(t *testing.T) {
 	for _, d := range []string{"name-case", "ad", "cd", "rd", "edns-presence", "ecs-subnet"} {
 		r.Require("shared_hit_observed:"+d, 3)
 	}
+	for _, cn := range []string{"simple-cache", "ecs-cache"} {
+		r.Require("wired_hits_"+cn, 150)
+		r.Require("frontend_truncated_then_hit_"+cn, 10)
+		r.Require("frontend_final_step_from_cache_"+cn, 20)
+	}
+	r.Require("wired_constructed_answers", 800)
 	r.Require("cacheable_controls_hit", 100)
 	r.Require("uncacheable_refetched_every_time", 200)
 	r.Require("ttl_within_bound", 500)
